@@ -376,3 +376,120 @@ def pdo_contracts(tier):
     if tier == "thorough":
         return [pdo_contract({51}, 4), pdo_contract({50}, 4), pdo_contract({50, 51}, 3), pdo_contract(set(), 1)]
     return [pdo_contract({51}, 3), pdo_contract({50, 51}, 2), pdo_contract(set(), 1)]
+
+
+# --------------------------------------- parse_pdos, unbounded (two contracts)
+# The nested generator parse_eeprom(s) as the SEQUENCE of its yields, for a
+# category of any number of PDOs and entries.  Ghost lists describe the slot
+# structure: hdr[m] = slot number of the header slot m belongs to (m itself for
+# a header), rank[m] = number of entry slots before slot m.
+def slots_well_formed(s, hdr, rank):
+    n = len(s) // 8
+    return (len(s) % 8 == 0 and len(hdr) == n and len(rank) == n + 1 and rank[0] == 0
+            and implies(n > 0, hdr[0] == 0)
+            and all(hdr[m] == (hdr[m - 1] if m <= hdr[m - 1] + s[8 * hdr[m - 1] + 2] else m)
+                    for m in range(1, n))
+            and all(0 <= hdr[m] and hdr[m] <= m and hdr[m] + s[8 * hdr[m] + 2] <= n - 1 for m in range(n))
+            and all(rank[m + 1] == rank[m] + (1 if hdr[m] != m else 0) for m in range(n)))
+
+
+def triple(s, m):
+    return (u16(s, 8 * m), s[8 * m + 2], s[8 * m + 5])
+
+
+def yields_upto(y, s, hdr, rank, k):
+    """the entries stored in slots below k have been yielded, in order"""
+    return all(implies(hdr[m] != m, 0 <= rank[m] and rank[m] < rank[k] and y[rank[m]] == triple(s, m))
+               for m in range(k))
+
+
+def parse_eeprom():
+  return Contract(
+    "ebpfcat.ethercat:Terminal.parse_pdos.parse_eeprom", nested=(Terminal.parse_pdos, "parse_eeprom"),
+    params=dict(s=T.Bytes, hdr=T.List(T.Int), rank=T.List(T.Int)),
+    requires={"well_formed_slots": "slots_well_formed(s, hdr, rank)"},
+    result=T.Tuple(T.Int, T.Int, T.Int),
+    loops={
+        1: Loop(invariant={
+            "at_a_header_or_the_end": "i % 8 == 0 and 0 <= i and i <= len(s) "
+                                      "and implies(i < len(s), hdr[i // 8] == i // 8)",
+            "yielded_so_far": "len(_yielded) == rank[i // 8] and yields_upto(_yielded, s, hdr, rank, i // 8)"},
+            modifies={"i": T.Int, "_yielded": T.List(T.Tuple(T.Int, T.Int, T.Int)), "idx": T.Int, "e": T.Int,
+                      "sm": T.Int, "u1": T.Int, "u2": T.Int, "u3": T.Int, "subidx": T.Int, "k1": T.Int,
+                      "k2": T.Int, "bits": T.Int, "er": T.Int}),
+        2: Loop(invariant={
+            "inside_the_pdo": "i == 8 * (h + 1 + _i) and hdr[h + _i] == h and h + e <= len(s) // 8 - 1",
+            "yielded_so_far": "len(_yielded) == rank[h + 1 + _i] "
+                              "and yields_upto(_yielded, s, hdr, rank, h + 1 + _i)"},
+            entry={"h": "i // 8 - 1"},
+            modifies={"i": T.Int, "_yielded": T.List(T.Tuple(T.Int, T.Int, T.Int)), "idx": T.Int,
+                      "subidx": T.Int, "k1": T.Int, "k2": T.Int, "bits": T.Int}),
+    },
+    ensures={"yields_exactly_the_stored_entries_in_order":
+             "len(result) == rank[len(s) // 8] and yields_upto(result, s, hdr, rank, len(s) // 8)"},
+    modifies=None,
+    options={"generator": "collect"},
+    canaries={"yields_nothing": "len(result) == 0"})
+
+
+# The nested consumer parse(func, sm) over ANY sequence of (index, subindex,
+# bits) triples.  Ghosts: pre[k] = sum of the bits of the first k triples; an
+# arbitrary key (gi, gs) at which the dict self.pdos is observed (g_present /
+# g_value on self); an arbitrary position gk of the sequence.
+def seq_ok(func, pre):
+    return (len(pre) == len(func) + 1 and pre[0] == 0
+            and all(pre[k + 1] == pre[k] + func[k][2] for k in range(len(func)))
+            and all(implies(func[k][0] != 0 and func[k][2] >= 8,
+                            (func[k][2] == 8 or func[k][2] == 16 or func[k][2] == 32 or func[k][2] == 64)
+                            and pre[k] % 8 == 0) for k in range(len(func))))
+
+
+def maps_key(func, k, gi, gs):
+    return func[k][0] == gi and func[k][1] == gs and func[k][0] != 0
+
+
+def last_for_key(func, gk, upto, gi, gs):
+    return all(not maps_key(func, j, gi, gs) for j in range(gk + 1, upto))
+
+
+def where_of(bits, pos):
+    """third component of a pdos value: bit position, or the struct format"""
+    return pos % 8 if bits < 8 else ("B" if bits == 8 else "H" if bits == 16 else "I" if bits == 32 else "Q")
+
+
+def holds_entry(t, func, pre, gk, sm):
+    return t.g_present and t.g_value == (sm, pre[gk] // 8, where_of(func[gk][2], pre[gk]))
+
+
+TRIPLES = T.List(T.Tuple(T.Range(0, 65535), T.Range(0, 255), T.Range(0, 255)))
+
+def parse_consumer():
+  return Contract(
+    "ebpfcat.ethercat:Terminal.parse_pdos.parse", nested=(Terminal.parse_pdos, "parse"),
+    params=dict(func=TRIPLES, sm=T.Enum(SyncManager, [SyncManager.IN, SyncManager.OUT]),
+                self=T.Obj(Terminal, g_present=T.Const(False), g_value=T.Const(None)),
+                pre=T.List(T.Int), gi=T.Range(0, 65535), gs=T.Range(0, 255), gk=T.Range(0, None)),
+    setup=lambda ex, inputs: inputs.vars["self"].fields.__setitem__(
+        "pdos", __import__("vc.pyvc.values", fromlist=["PDict"]).PDict()),
+    requires={"sequence_with_its_prefix_sums": "seq_ok(func, pre)",
+              "ghost_position": "gk < len(func) and maps_key(func, gk, gi, gs)"},
+    loops={1: Loop(
+        invariant={"bit_position_is_the_sum_so_far": "bitpos == pre[_i]",
+                   "range": "0 <= _i and _i <= len(func)",
+                   "last_entry_of_the_key_so_far":
+                       "implies(gk < _i and last_for_key(func, gk, _i, gi, gs), holds_entry(self, func, pre, gk, sm))"},
+        modifies={"bitpos": T.Int, "idx": T.Int, "subidx": T.Int, "bits": T.Int,
+                  "self.g_present": T.Bool,
+                  # the third component is a bit position or a struct format
+                  "self.g_value": T.Tuple(T.Enum(SyncManager), T.Int,
+                                          T.OneOf(T.Int, T.Const("B"), T.Const("H"), T.Const("I"), T.Const("Q")))})},
+    ensures={"returns_the_total_number_of_bits": "result == pre[len(func)]",
+             "each_mapped_entry_has_its_byte_and_bit_position_or_format":
+                 "implies(last_for_key(func, gk, len(func), gi, gs), holds_entry(self, func, pre, gk, sm))"},
+    modifies=None,
+    options={"ghost_key": ("self", ("gi", "gs"))},
+    canaries={"every_entry_at_byte_zero": "implies(self.g_present, self.g_value[1] == 0)",
+              "formats_never_stored": "implies(self.g_present, self.g_value[2] != 'H')",
+              "a_format_seen_earlier_is_lost":
+                  "implies(gk + 1 < len(func) and func[gk][2] == 16 and last_for_key(func, gk, len(func), gi, gs), "
+                  "not self.g_present)"})
